@@ -8,7 +8,8 @@ From Coq Require Import ZArith List Bool Arith Lia.
 From KV Require Import Base.Sx Model.Categorical Model.CategoricalX Proofs.CategoricalP Proofs.CategoricalAddP
   Proofs.CategoricalPartP Proofs.CategoricalConcatP Proofs.CategoricalRemoveP Proofs.CategoricalAlignP
   Proofs.CategoricalSeqP Proofs.CategoricalXP Proofs.CategoricalXPartP Proofs.CategoricalLawsP
-  Gen.Generated Proofs.CategoricalTieP Proofs.CategoricalExP.
+  Gen.Generated Proofs.CategoricalTieP Proofs.CategoricalExP Model.CategoricalH Proofs.CategoricalHP
+  Proofs.CategoricalTieHP.
 Import ListNotations.
 Open Scope nat_scope.
 
@@ -476,3 +477,156 @@ Example C11_example_more :
   uio_tok Nat.eqb (fun x : nat => x) [7; 8; 7; 9; 8] = ([7; 8; 9], [0; 1; 0; 2; 1]).
 Proof. exact ex_more. Qed.
 Print Assumptions C11_example_more.
+
+(* ===================== round 3: add() with its bounds check; several containers with shared storage ===================== *)
+
+(* add_total (katdal d362220): add(event, value) for EVERY Python integer event and every value / no value.
+   It raises exactly when the event is not a dump (event < 0 or event >= N) or, without a value, lies before the
+   first event; otherwise the invariant and N are kept, the only new boundary is the event, and the per-dump list is
+   overridden from the event until the next existing event (no value: unchanged).  In particular add(N, v) can no
+   longer append an index without an event (C11_add_outside describes the unchecked body) *)
+Theorem C11_add_total : forall V (veqb : V -> V -> bool) (dflt : V), eq_dec_spec veqb ->
+  forall (c : cd) (e : Z) (val : option V), WF c ->
+  (add_chk veqb c e val = None <->
+     ((e < 0)%Z \/ (Z.of_nat (ndumps c) <= e)%Z \/ (val = None /\ (e < Z.of_nat (hd 0%nat (ev c)))%Z))) /\
+  (forall c', add_chk veqb c e val = Some c' ->
+     WF c' /\ ndumps c' = ndumps c /\ (0 <= e < Z.of_nat (ndumps c))%Z /\
+     expand dflt c' = spec_add (expand dflt c) (ev c) (Z.to_nat e) val /\
+     (forall y, In y (ev c') <-> y = Z.to_nat e \/ In y (ev c))).
+Proof. intros V veqb dflt H c e val W. split. exact (add_chk_none_iff veqb dflt H c e val W).
+  intros c'. exact (add_chk_some veqb dflt H c c' e val W). Qed.
+Print Assumptions C11_add_total.
+
+(* add_unmatched goes through the checked add and is the add_unmatched of C11_add_unmatched_expand / _post *)
+Theorem C11_add_unmatched_checked : forall V (veqb : V -> V -> bool) (dflt : V) (c : cd) segs d, WF c ->
+  add_unmatched_chk veqb c segs d = add_unmatched veqb c segs d.
+Proof. intros V veqb dflt. exact (add_unmatched_chk_eq veqb dflt). Qed.
+Print Assumptions C11_add_unmatched_checked.
+
+(* containers_frame: ONE operation on a heap of several container objects whose storage is modelled explicitly
+   (list objects for unique_values, numpy buffers for indices / events, references and views).  If different
+   container objects own different list objects (heap_ok; established by the constructor, partition and concatenate,
+   kept by every operation), then after the operation
+     - the container it is addressed to has the value the single-container model gives (pure_op),
+     - EVERY other container object (the parent of a part, the sibling parts, the inputs of a concatenation, ...)
+       has exactly the value it had: add() / remove() write unique_values in place but only their own list object,
+     - every array reference that was allocated - also a view held by somebody else, e.g. the caller's array that
+       the constructor adopts without copying - still reads the same: no operation writes into an existing buffer *)
+Theorem C11_containers_frame : forall V (veqb : V -> V -> bool) (dflt : V) (h : heap) (o : hop), heap_ok h ->
+  let h' := fst (h_step veqb dflt false h o) in
+  heap_ok h' /\ n_objs h <= n_objs h' /\
+  (forall r, r_buf r < n_arrs h -> rd_arr h' r = rd_arr h r) /\
+  (forall j, j < n_objs h -> rd h' j = if targets j o then pure_op veqb dflt (rd h j) o else rd h j).
+Proof. intros V veqb dflt h o OK. destruct (h_step_framed veqb dflt h o OK) as (A & B & C & D & F).
+  split; [exact A|]. split; [exact B|]. split; [exact D|]. exact F. Qed.
+Print Assumptions C11_containers_frame.
+
+(* an operation that raises (IndexError / ValueError) has changed nothing at all - also with shared storage *)
+Theorem C11_containers_raise_nothing : forall V (veqb : V -> V -> bool) (dflt : V) (share : bool) (h : heap) (o : hop),
+  snd (h_step veqb dflt share h o) = None -> fst (h_step veqb dflt share h o) = h.
+Proof. intros V veqb dflt. exact (h_step_raise veqb dflt). Qed.
+Print Assumptions C11_containers_raise_nothing.
+
+(* the container objects an operation creates: the parts of partition() are new objects with the values of the
+   single-container model and the parent keeps its value; concatenate of several parts is a new object; concatenate
+   of ONE part returns that very object (no copy: later changes through either name are changes of the same
+   container); the constructor adopts the caller's event array as it is *)
+Theorem C11_containers_new_objects : forall V (veqb : V -> V -> bool) (dflt : V) (h : heap), heap_ok h ->
+  (forall i segs ps, i < n_objs h -> partition_x (rd h i) segs = Some ps ->
+     let h' := fst (h_step veqb dflt false h (HPartition i segs)) in
+     snd (h_step veqb dflt false h (HPartition i segs)) = Some (seq (n_objs h) (length ps)) /\
+     n_objs h' = n_objs h + length ps /\
+     (forall k, k < length ps -> rd h' (n_objs h + k) = nth k ps (mk [] [] [])) /\ rd h' i = rd h i) /\
+  (forall parts ar cc, Forall (fun i => i < n_objs h) parts -> length parts <> 1 ->
+     concatenate veqb dflt (map (rd h) parts) ar = Some cc ->
+     let h' := fst (h_step veqb dflt false h (HConcat parts ar)) in
+     snd (h_step veqb dflt false h (HConcat parts ar)) = Some [n_objs h] /\ rd h' (n_objs h) = cc /\
+     (forall j, j < n_objs h -> rd h' j = rd h j)) /\
+  (forall i ar, i < n_objs h -> h_step veqb dflt false h (HConcat [i] ar) = (h, Some [i])) /\
+  (forall values r, r_buf r < n_arrs h ->
+     let h' := fst (h_step veqb dflt false h (HMake values r)) in
+     rd h' (n_objs h) = make veqb values (rd_arr h r) /\ o_ev (h_objs h' (n_objs h)) = r).
+Proof.
+  intros V veqb dflt h OK. split; [|split; [|split]].
+  - intros i segs ps Hi E. exact (h_step_partition_new veqb dflt h i segs ps OK Hi E).
+  - intros parts ar cc F L E. exact (h_step_concat_new veqb dflt h parts ar cc OK F L E).
+  - intros i ar Hi. exact (h_step_concat_single veqb dflt false h i ar Hi).
+  - intros values r Hr. exact (h_step_make_new veqb dflt h values r OK Hr).
+Qed.
+Print Assumptions C11_containers_new_objects.
+
+(* containers_histories: ANY history of operations on ANY number of containers (constructor, add, remove,
+   add_unmatched, align, remove_repeats, partition, concatenate; raising operations included - they change nothing).
+   The value of every container at the end is the result of applying to it exactly the operations addressed to
+   it, in order - no operation on another container shows through; the storage invariant holds at the end; arrays
+   that existed at the start still read the same; and a well-formed container stays well-formed with its N *)
+Theorem C11_containers_histories : forall V (veqb : V -> V -> bool) (dflt : V), eq_dec_spec veqb ->
+  forall (ops : list hop) (h : heap), heap_ok h ->
+  let h' := h_run veqb dflt false h ops in
+  heap_ok h' /\ n_objs h <= n_objs h' /\
+  (forall r, r_buf r < n_arrs h -> rd_arr h' r = rd_arr h r) /\
+  (forall j, j < n_objs h ->
+     rd h' j = fold_left (pure_op veqb dflt) (filter (targets j) ops) (rd h j) /\
+     (WF (rd h j) -> Forall (align_arg_ok (ndumps (rd h j))) (filter (targets j) ops) ->
+      WF (rd h' j) /\ ndumps (rd h' j) = ndumps (rd h j))).
+Proof.
+  intros V veqb dflt H ops h OK. destruct (h_run_framed veqb dflt ops h OK) as (A & B & C & D).
+  split; [exact A|]. split; [exact B|]. split; [exact C|]. intros j Hj. split; [exact (D j Hj)|].
+  intros W F. exact (h_run_WF veqb dflt H ops h j OK Hj W F).
+Qed.
+Print Assumptions C11_containers_histories.
+
+(* the storage discipline of partition() BEFORE fix fbcb22b (finding F39: one list object for all parts and the
+   parent) does NOT have the frame property: remove() on part 1 changes part 2 and the parent *)
+Theorem C11_shared_unique_values_refuted :
+  let h2 := h_run Nat.eqb 0 true hx_heap0 (firstn 2 hx_ops) in
+  let h3 := h_run Nat.eqb 0 true hx_heap0 hx_ops in
+  targets 2 (HRemove 1 7) = false /\ targets 0 (HRemove 1 7) = false /\
+  expand 0 (rd h2 2) = [8; 8; 8; 7; 7; 7] /\ expand 0 (rd h3 2) = [0; 0; 0; 8; 8; 8] /\
+  uv (rd h2 0) = [7; 8] /\ uv (rd h3 0) = [8].
+Proof. exact shared_refuted. Qed.
+Print Assumptions C11_shared_unique_values_refuted.
+
+(* non-vacuity: the same history with the code as it is; the caller's event array is still [0,3,6,9]; concatenate of
+   one part returns the part; add(6, v) on a part of 6 dumps raises, add(5, v) overrides the last dump *)
+Example C11_example_containers :
+  let h2 := h_run Nat.eqb 0 false hx_heap0 (firstn 2 hx_ops) in
+  let h3 := h_run Nat.eqb 0 false hx_heap0 hx_ops in
+  heap_ok hx_heap0 /\
+  expand 0 (rd h3 2) = [8; 8; 8; 7; 7; 7] /\ rd h3 2 = rd h2 2 /\ rd h3 0 = rd h2 0 /\
+  expand 0 (rd h2 1) = [7; 7; 7] /\ uv (rd h3 1) = [8] /\ idx (rd h3 1) = [] /\ ev (rd h3 1) = [3] /\
+  rd_arr h3 (mkref 0 0 4) = [0; 3; 6; 9] /\ n_objs h3 = 3 /\
+  h_step Nat.eqb 0 false h3 (HConcat [2] false) = (h3, Some [2]) /\
+  snd (h_step Nat.eqb 0 false h3 (HAdd 2 6 (Some 5))) = None /\
+  expand 0 (rd (fst (h_step Nat.eqb 0 false h3 (HAdd 2 5 (Some 5)))) 2) = [8; 8; 8; 7; 7; 5].
+Proof. exact unshared_example. Qed.
+Print Assumptions C11_example_containers.
+
+(* unique_in_order, fallback loop: "equal tokens mean equal values" (the hypothesis of C11_unique_in_order_fallback)
+   is NECESSARY - a token function that maps two different values to one token (e.g. the raw bytes of an ndarray
+   without its shape and dtype) merges them: the second one gets the index of the first and is never stored *)
+Theorem C11_unique_in_order_needs_injective_tokens :
+  forall V K (veqb : V -> V -> bool) (keqb : K -> K -> bool) (tok : V -> K),
+  (forall a b, keqb (tok a) (tok b) = true -> uio_tok keqb tok [a; b] = ([a], [0; 0])) /\
+  ((forall l, fst (uio_tok keqb tok l) = unique_in_order veqb l) ->
+   forall a b, keqb (tok a) (tok b) = true -> veqb a b = true).
+Proof. intros V K veqb keqb tok. split. exact (uio_tok_collision keqb tok). exact (uio_tok_needs_injective veqb keqb tok). Qed.
+Print Assumptions C11_unique_in_order_needs_injective_tokens.
+
+Example C11_example_token_collision :
+  uio_tok Nat.eqb (fun x : nat => Nat.div x 10) [41; 42; 51] = ([41; 51], [0; 0; 1]) /\
+  unique_in_order Nat.eqb [41; 42; 51] = [41; 42; 51].
+Proof. vm_compute. split; reflexivity. Qed.
+Print Assumptions C11_example_token_collision.
+
+(* tie: the bounds check of add() written with the comparison operators and the constant re-read from the source, in
+   front of the generated body add_g, IS add_chk for all arguments; add_unmatched calls that add with the default
+   distance and the comparison of the source *)
+Theorem C11_source_add_check : forall V (veqb : V -> V -> bool),
+  (forall (c : @cd V) e val, add_chk_g veqb c e val = add_chk veqb c e val) /\
+  (forall (c : @cd V) segs,
+     add_unmatched_chk veqb c segs (Z.to_nat catg_match_dist) =
+     fold_left (fun c s => match add_chk_g veqb c (Z.of_nat s) None with Some c' => c' | None => c end)
+       (filter (fun s => catg_unmatched_cmp (Z.of_nat (list_min (map (absd s) (ev c)))) catg_match_dist) segs) c).
+Proof. intros V veqb. split. exact (add_chk_g_ok veqb). exact (add_unmatched_chk_g veqb). Qed.
+Print Assumptions C11_source_add_check.
